@@ -8,7 +8,7 @@ from . import common as C
 
 PID = "C08"
 SHARDS = {"quick": 4, "thorough": 16}
-N = {"quick": 2500, "thorough": 90000}
+N = {"quick": 3000, "thorough": 105000}
 ROW = {"SERIES_CONTAINS_NULLS", "SERIES_CONTAINS_DUPLICATES", "DATAFRAME_CHECK", "DUPLICATES"}
 
 
@@ -20,7 +20,10 @@ def new_run():
                "built-in check with adversarial arguments); built for pandas and for polars and "
                "validated lazily by both real backends; verdicts, failing cells (column, row "
                "position) and parsed outputs are compared with each other and the verdict with the "
-               "reference model; non-trivial = a constraint is violated or a parsing option changes "
+               "reference model; one case in six is a sequence of 2-4 tables (valid / mutated, any "
+               "order) validated by ONE pandas and ONE polars schema object: the backends are "
+               "compared at every step and each with a freshly built twin of the schema on the "
+               "same input; non-trivial = a constraint is violated or a parsing option changes "
                "the table; distinct = canonical hash of (spec, table)",
                ["index schemas, report_duplicates != 'all', unique_column_names, groupby checks are "
                 "excluded: the polars docs declare them unsupported",
@@ -127,33 +130,107 @@ def classify(spec, table, kind, detail):
 
 def one(run, rng):
     spec, table, opts, muts = P.gen_parse_case(rng, neutral=True, allow_drop=False, mutate_p=0.5)
+    judge(run, spec, table, opts, muts)
+
+
+def outcome_sig(out, table_of):
+    """What a validation did, for comparing the SAME backend on the same input."""
+    if out.kind == "exc":
+        return ("exc", type(out.exc).__name__)
+    if out.accepted:
+        return ("ok", table_of(out.result))
+    return (out.kind, tuple(sorted((e.reason, str(e.column), str(e.check_index),
+                                    repr(sorted(map(repr, e.cells))) if e.cells is not None else None)
+                                   for e in out.errors)))
+
+
+def sequence(run, rng):
+    """ONE pandas schema object and ONE polars schema object validate a short
+    sequence of tables (valid / invalid / valid ..., in random order).  At every
+    step the two backends are compared as in a single case, and each backend is
+    compared with a freshly built twin of the schema on the same input: what a
+    schema means must not depend on what it validated before."""
+    import copy
+    spec, table, opts, muts = P.gen_parse_case(rng, neutral=True, allow_drop=False, mutate_p=0.0)
     if C.has_dup_labels(table):
         return
+    table["index"] = None
+    steps = [("valid", table, [])]
+    for _ in range(rng.randint(1, 3)):
+        t = copy.deepcopy(table)
+        if rng.random() < 0.65:
+            s2 = copy.deepcopy(spec)     # mutate may relax nothing in the shared spec
+            m = G.mutate(rng, s2, t, k=rng.choice([1, 1, 2]))
+            if s2 != spec or C.has_dup_labels(t):
+                continue
+            steps.append(("mutated", t, m))
+        else:
+            steps.append(("valid", t, []))
+    rng.shuffle(steps)
+    try:
+        s_pd, s_pl = B.pandas_schema(spec), B.polars_schema(spec)
+    except Exception as e:
+        run.count("build_error:" + type(e).__name__)
+        return
+    run.count(f"sequence:length:{len(steps)}")
+    failed_before = False
+    for k, (what, t, m) in enumerate(steps):
+        o_pd, o_pl = judge(run, spec, t, opts, m, s_pd=s_pd, s_pl=s_pl, tag=f"sequence:step{min(k, 3)}:")
+        if o_pd is None:
+            continue
+        try:
+            f_pd = H.run_validate(B.pandas_schema(spec), B.pandas_table(spec, t), lazy=True)
+            f_pl = H.run_validate(B.polars_schema(spec), B.polars_table(t), lazy=True)
+        except Exception as e:
+            run.count("build_error:" + type(e).__name__)
+            continue
+        run.count("sequence:shared_vs_fresh_schema_compared")
+        if failed_before:
+            run.count("sequence:shared_vs_fresh_schema_compared:after_a_failed_validation")
+        for backend, shared, fresh, tab in (("pandas", o_pd, f_pd, table_pd), ("polars", o_pl, f_pl, table_pl)):
+            a, b = outcome_sig(shared, tab), outcome_sig(fresh, tab)
+            if a != b:
+                run.violation("schema-object-history-changes-outcome",
+                              C.brief(spec, t, {"backend": backend, "step": k,
+                                                "history": [w for w, _, _ in steps[:k]],
+                                                "shared_schema_object": shared.kind,
+                                                "shared_reasons": shared.reasons(),
+                                                "fresh_schema_object": fresh.kind,
+                                                "fresh_reasons": fresh.reasons(), "options": opts}), None)
+        failed_before = failed_before or not o_pd.accepted or not o_pl.accepted
+
+
+def judge(run, spec, table, opts, muts, s_pd=None, s_pl=None, tag=""):
+    """Validates (spec, table) on both backends and compares them.  Returns the
+    two outcomes (None, None when nothing was validated)."""
+    if C.has_dup_labels(table):
+        return None, None
     table["index"] = None            # row positions are the identity on both backends
     verdict_only = False
+    undecided = None
     present = {c["name"]: c for c in table["columns"]}
     for fs in spec["columns"]:
         col = present.get(fs["name"])
         if col is not None and fs["dtype"] in ("int64", "bool") and None in col["values"]:
             # numpy int64 / bool cannot hold nulls, polars Int64 / Boolean can
-            run.count("undecided:null_in_int_or_bool_column(engine representation)")
-            return
+            undecided = undecided or "undecided:null_in_int_or_bool_column(engine representation)"
+            break
         if col is None and spec.get("add_missing_columns") and fs.get("default") is None \
                 and fs["nullable"] and (fs["dtype"] in ("int64", "bool") or fs["unique"]):
-            run.count("undecided:added_all_null_column_of_int_bool_or_unique")
-            return
+            undecided = undecided or "undecided:added_all_null_column_of_int_bool_or_unique"
+            break
         coerced = fs.get("coerce") or spec.get("coerce")
         if col is not None and coerced and fs["dtype"] in ("datetime", "bool") \
                 and col["phys"] != G.PHYS_OF[fs["dtype"]]:
             # what a cast from text to datetime / bool accepts is engine specific
-            run.count("undecided:engine_specific_cast_to_datetime_or_bool")
-            return
+            undecided = undecided or "undecided:engine_specific_cast_to_datetime_or_bool"
+            break
         if col is not None and col["phys"] != G.PHYS_OF[fs["dtype"]] \
                 and all(x is None for x in col["values"]):
             # an empty / all-null column of another physical type: what its
             # type "is" differs between the engines
-            run.count("undecided:empty_or_all_null_foreign_column")
-            return
+            undecided = undecided or "undecided:empty_or_all_null_foreign_column"
+            break
         if col is not None and fs["unique"] and sum(1 for x in col["values"] if x is None) >= 2:
             # the docs do not say whether nulls are duplicates of each other, but
             # the two backends must still agree: verdicts are compared, cells not
@@ -163,31 +240,46 @@ def one(run, rng):
         for n in spec["unique"]:
             col = present.get(n)
             if col is None or None in col["values"]:
-                run.count("undecided:joint_unique_over_nulls_or_added_column")
-                return
+                undecided = undecided or "undecided:joint_unique_over_nulls_or_added_column"
+                break
+    if undecided and s_pd is None:
+        run.count(undecided)
+        return None, None
     v = M.evaluate(spec, table) if not opts else None
     try:
-        s_pd, d_pd = B.pandas_schema(spec), B.pandas_table(spec, table)
-        s_pl, d_pl = B.polars_schema(spec), B.polars_table(table)
+        d_pd, d_pl = B.pandas_table(spec, table), B.polars_table(table)
+        if s_pd is None:
+            s_pd, s_pl = B.pandas_schema(spec), B.polars_schema(spec)
     except Exception as e:
         run.count("build_error:" + type(e).__name__)
-        return
+        return None, None
     o_pd = H.run_validate(s_pd, d_pd, lazy=True)
     o_pl = H.run_validate(s_pl, d_pl, lazy=True)
-    run.case(canon_hash([spec, table]), bool(opts) or bool(muts),
+    run.case(canon_hash([tag, spec, table]), bool(opts) or bool(muts),
              sample={"spec": spec, "table": table, "options": opts, "mutations": muts,
-                     "pandas": o_pd.kind, "polars": o_pl.kind})
-    for o in opts:
-        run.count(f"option:{o}")
-    for fs in spec["columns"]:
-        for c in fs["checks"]:
-            run.count(f"check:{c['kind']}")
+                     "pandas": o_pd.kind, "polars": o_pl.kind} if not tag else None)
+    if undecided:
+        # part of a sequence: validated for its effect on the shared schema
+        # objects, the cross-backend comparison of this step is not judged
+        run.count(tag + undecided)
+        return o_pd, o_pl
+    compare(run, spec, table, opts, muts, v, o_pd, o_pl, verdict_only, tag)
+    return o_pd, o_pl
+
+
+def compare(run, spec, table, opts, muts, v, o_pd, o_pl, verdict_only, tag=""):
+    if not tag:
+        for o in opts:
+            run.count(f"option:{o}")
+        for fs in spec["columns"]:
+            for c in fs["checks"]:
+                run.count(f"check:{c['kind']}")
     if "exc" in (o_pd.kind, o_pl.kind):
         run.count(f"undecided:internal_exception(C06):pandas={o_pd.kind},polars={o_pl.kind}")
         return
-    run.count("verdict_compared")
+    run.count(tag + "verdict_compared")
     if v is not None and v.accept is not None:
-        run.count("verdict_compared_with_model")
+        run.count(tag + "verdict_compared_with_model")
     if o_pd.accepted != o_pl.accepted:
         detail = {"pandas": o_pd.kind, "pandas_reasons": o_pd.reasons(),
                   "polars": o_pl.kind, "polars_reasons": o_pl.reasons(), "options": opts,
@@ -206,7 +298,7 @@ def one(run, rng):
     if not o_pd.accepted:
         r1, f1, d1, c1 = cells_pd(o_pd)
         r2, f2, d2, c2 = cells_pl(o_pl)
-        run.count("failing_cells_compared")
+        run.count(tag + "failing_cells_compared")
         if d1 != d2 or c1 != c2:
             run.violation("dtype-or-coercion-errors-differ",
                           C.brief(spec, table, {"pandas_dtype": sorted(map(str, d1)), "polars_dtype": sorted(map(str, d2)),
@@ -232,7 +324,7 @@ def one(run, rng):
         return
     # both accept: parsed outputs
     t1, t2 = table_pd(o_pd.result), table_pl(o_pl.result)
-    run.count("parsed_output_compared")
+    run.count(tag + "parsed_output_compared")
     if t1 != t2:
         detail = {"pandas_columns": [c for c, _, _ in t1], "polars_columns": [c for c, _, _ in t2],
                   "pandas": t1, "polars": t2, "options": opts}
@@ -242,12 +334,22 @@ def one(run, rng):
 
 def run(run, ctx):
     for i in ctx.cases(N[ctx.tier]):
-        one(run, ctx.rng(PID, i))
+        if i % 6 == 4:
+            sequence(run, ctx.rng(PID, i))
+        else:
+            one(run, ctx.rng(PID, i))
+        C.report_context_leaks(run, {"case": i})
+    C.finish_context_monitor(run)
 
 
 def finalize(run, ctx):
     for name, m in [("verdict_compared", 800), ("failing_cells_compared", 200),
                     ("parsed_output_compared", 300), ("verdict_compared_with_model", 100),
                     ("option:add_missing_columns", 50), ("option:strict_filter", 50),
-                    ("option:default", 50), ("check:str_matches", 20), ("check:in_range", 50)]:
+                    ("option:default", 50), ("check:str_matches", 20), ("check:in_range", 50),
+                    ("config_monitor:validate_calls_bracketed", 900),
+                    # sequences on ONE pandas and ONE polars schema object
+                    ("sequence:shared_vs_fresh_schema_compared", 300),
+                    ("sequence:shared_vs_fresh_schema_compared:after_a_failed_validation", 60),
+                    ("sequence:step1:verdict_compared", 80)]:
         run.floors[name] = m
